@@ -17,7 +17,6 @@ from typing import (
 import hugr.model as model
 from hugr._serialization.ops import OpType as SerialOp
 from hugr._serialization.serial_hugr import SerialHugr
-from hugr.exceptions import ParentBeforeChild
 from hugr.ops import Call, Const, Custom, DataflowOp, Module, Op
 from hugr.tys import Kind, Type, ValueKind
 from hugr.utils import BiMap
@@ -639,18 +638,20 @@ class Hugr(Mapping[Node, NodeData], Generic[OpVarCov]):
         """
         mapping: dict[Node, Node] = {}
 
-        for node, node_data in hugr.nodes():
-            # relies on parents being inserted before any children
-            try:
-                node_parent = mapping[node_data.parent] if node_data.parent else parent
-            except KeyError as e:
-                raise ParentBeforeChild from e
+        # walk the hierarchy so that parents are inserted before their children
+        # and children keep their order, whatever their indices are
+        stack = [hugr.root]
+        while stack:
+            node = stack.pop()
+            node_data = hugr[node]
+            node_parent = mapping[node_data.parent] if node_data.parent else parent
             mapping[node] = self.add_node(
                 node_data.op,
                 node_parent,
                 num_outs=node_data._num_outs,
                 metadata=node_data.metadata,
             )
+            stack.extend(reversed(node_data.children))
 
         for src, dst in hugr._links.items():
             self.add_link(
